@@ -215,7 +215,17 @@ impl Monitor for C14 {
                 // stored accumulator: the group where the swap ended, or an adjacent one
                 if !o.trace.steps.is_empty() {
                     let g_end = floor_div(model::tick_of_sqrt_price(o.post.sqrt_price), gs);
-                    let allowed: Vec<u32> = [g_end - 1, g_end, g_end + 1].iter().map(|g| model_acc(r.volatility_reference, r.tick_group_index_reference, *g, k)).collect();
+                    // the group where the swap ended, or the adjacent one in the trade direction. Going down, a
+                    // price on a group boundary is the lower end of group g_end; going up it is the upper end of g_end - 1.
+                    let on_boundary = group_price(g_end, gs) == Some(o.post.sqrt_price);
+                    let groups: [i32; 2] = if o.a_to_b {
+                        [g_end, g_end - 1]
+                    } else if on_boundary {
+                        [g_end - 1, g_end]
+                    } else {
+                        [g_end, g_end + 1]
+                    };
+                    let allowed: Vec<u32> = groups.iter().map(|g| model_acc(r.volatility_reference, r.tick_group_index_reference, *g, k)).collect();
                     if !allowed.contains(&post_o.v.volatility_accumulator) {
                         out.push(viol("stored_accumulator", ev.idx, format!("swap ended in tick group {} (reference {}, volatility reference {}): stored accumulator {} not in {:?}", g_end, r.tick_group_index_reference, r.volatility_reference, post_o.v.volatility_accumulator, allowed)));
                     }
